@@ -35,12 +35,167 @@ def strategy(tier):
     return scen.scenarios()
 
 
+# ---- a faulted call NEXT TO a concurrent call -------------------------------------------------------------------------
+# "in all cases every other pid's data is untouched" - also the data of a pid that another thread is storing at that moment.
+# Thread 0 gets one one-off EIO at its k-th fault site (every k in turn); thread 1 runs clean; schedules = every single
+# preemption that lands immediately before an operation that does not commute with the other thread (conc.conflict_directed).
+from .. import conc, sched   # noqa: E402
+
+NX, NY = 0, 1
+NEXT_TO = {
+    # name: (start ops, faulted call, clean call)
+    "store-new/store-same-content": ([], {"op": "store", "pid": "p", "c": NX}, {"op": "store", "pid": "q", "c": NX}),
+    "store-new/tag-same-content": ([], {"op": "store", "pid": "p", "c": NX}, {"op": "tag", "pid": "q", "cid": {"of": NX}}),
+    "tag/store-same-content": ([{"op": "store", "pid": None, "c": NX}], {"op": "tag", "pid": "p", "cid": {"of": NX}},
+                               {"op": "store", "pid": "q", "c": NX}),
+    "store-additional/store-additional": ([{"op": "store", "pid": "r", "c": NX}], {"op": "store", "pid": "p", "c": NX},
+                                          {"op": "store", "pid": "q", "c": NX}),
+    "delete-shared/store-additional": ([{"op": "store", "pid": "r", "c": NX}, {"op": "store", "pid": "p", "c": NX}],
+                                       {"op": "delete", "pid": "p"}, {"op": "store", "pid": "q", "c": NX}),
+    "store-rejected/store-same-content": ([{"op": "store", "pid": "p", "c": NY}], {"op": "store", "pid": "p", "c": NX},
+                                          {"op": "store", "pid": "q", "c": NX}),
+    "smeta/smeta-other-format": ([{"op": "smeta", "pid": "p", "fmt": "f", "d": 0}], {"op": "smeta", "pid": "p", "fmt": "f", "d": 1},
+                                 {"op": "smeta", "pid": "p", "fmt": "g", "d": 1}),
+    "smeta/delete-metadata-all": ([{"op": "smeta", "pid": "p", "fmt": "f", "d": 0}, {"op": "smeta", "pid": "q", "fmt": "f", "d": 0}],
+                                  {"op": "smeta", "pid": "p", "fmt": "g", "d": 1}, {"op": "dmeta", "pid": "q", "fmt": None}),
+}
+NEXT_BASE = {"cfg": {"algo": "SHA-256", "depth": 2, "width": 2}, "contents": [{"hex": "5858585858"}, {"hex": "5959"}],
+             "docs": [{"hex": "6f6c64"}, {"hex": "6e6577"}]}
+
+
+def enumerate_cases(tier):
+    for name in NEXT_TO:
+        for first in (0, 1):
+            yield dict(NEXT_BASE, family="next-to", pair=name, start=NEXT_TO[name][0], firsts=[first])
+
+
+def case_cost(case):
+    return 10
+
+
+class _ThreadFault:
+    """One-off EIO at the k-th fault site of thread 0 (sites counted over that thread's own operations only)."""
+
+    def __init__(self, k):
+        self.k, self.n, self.fired = k, 0, None
+
+    def __call__(self, t, ev):
+        if t is None or t.idx != 0 or self.fired is not None or not fault.is_site(ev):
+            return
+        if self.n == self.k:
+            self.fired = ev
+            raise OSError(fault.ERRNOS["EIO"], "Input/output error [injected]", ev.dest)
+        self.n += 1
+
+
+def _next_to_case(case, ctx):
+    fsi.install()
+    start, faulted, clean = NEXT_TO[case["pair"]]
+    calls = [faulted, clean]
+    world = conc.World(case, ctx)
+    cfg = world.cfg
+    ctx.evaluations -= 1
+    # what the pids of the start state serve
+    d0 = world.fresh_copy()
+    s0 = common.make_store(d0, cfg)
+    start_pids = sorted({o["pid"] for o in start if o.get("pid")})
+
+    def served(store):
+        out = {}
+        for p in start_pids + ["p", "q"]:
+            o = common.retrieve_bytes(store, p)
+            out[("obj", p)] = ("ok", o[1]) if is_ok(o) else ("err", o[1])
+            for f in ("f", "g"):
+                o = common.retrieve_meta_bytes(store, p, f)
+                out[("meta", p, f)] = ("ok", o[1]) if is_ok(o) else ("err", o[1])
+        return out
+    served0 = served(s0)
+    import shutil as _sh
+    _sh.rmtree(d0, ignore_errors=True)
+    k = 0
+    total = 0
+    while k < 200:
+        fired_any = False
+        fac = lambda k=k: _ThreadFault(k)   # noqa
+        fac.is_factory = True
+        for order, pre, ex, stats in conc.conflict_directed_schedules(world, calls, max_preempt=1, firsts=tuple(case["firsts"]),
+                                                                      extra_on_op=fac, keep_dir=True):
+            inj = ex.extra
+            try:
+                if inj.fired is None:
+                    continue
+                fired_any = True
+                ctx.count()
+                total += 1
+                where = (f"[{case['pair']}] thread0={conc.op_pattern(faulted, world)}:{faulted.get('pid')} with EIO once at its fault site #{k} "
+                         f"[{inj.fired.brief(os.path.realpath(ex.dir))}], thread1={conc.op_pattern(clean, world)}:{clean.get('pid')} clean; "
+                         f"order={order} preemptions={pre}; outcomes {ex.outcomes}")
+                sig = {"family": "next-to", "pair": case["pair"], "site": inj.fired.kind, "path_class": fault.path_class(ex.dir, inj.fired)}
+                if ex.deadlock:
+                    ctx.violation("deadlock", f"{where}: no thread runnable: {ex.deadlock}", dict(sig, failure="deadlock"))
+                    continue
+                now = served(ex.store)
+                # (a) pids of the start state that neither call names: untouched
+                for key, v in served0.items():
+                    if key[1] in ("p", "q"):
+                        continue
+                    if now[key] != v:
+                        ctx.violation("fault-harmed-bystander", f"{where}: {key} was {scen._s(v)} and is now {scen._s(now[key])}",
+                                      dict(sig, failure="bystander"))
+                # (b) the clean call: a normal return means its whole effect
+                o1 = ex.outcomes[1]
+                # (tag_object does not require the object to exist: only a tag onto an object of the START state is judged)
+                if o1[0] == "ok" and (clean["op"] == "store" or (clean["op"] == "tag" and any(
+                        s["op"] == "store" and s.get("c") == clean["cid"]["of"] for s in start))):
+                    want = world.contents[clean["c"] if clean["op"] == "store" else clean["cid"]["of"]]
+                    got = now[("obj", clean["pid"])]
+                    if got != ("ok", want):
+                        ctx.violation("concurrent-call-harmed", f"{where}: the clean call returned normally but its pid now yields "
+                                      f"{scen._s(got)}", dict(sig, failure="clean-call-lost-its-effect"))
+                if o1[0] == "ok" and clean["op"] == "smeta":
+                    got = now[("meta", clean["pid"], clean["fmt"])]
+                    if got != ("ok", world.docs[clean["d"]]):
+                        ctx.violation("concurrent-call-harmed", f"{where}: the clean store_metadata returned normally but the document "
+                                      f"now yields {scen._s(got)}", dict(sig, failure="clean-call-lost-its-effect"))
+                # (c) the faulted call: normal return => whole effect; raise => earlier state of ITS pid intact or retry works
+                o0 = ex.outcomes[0]
+                if o0[0] == "ok" and (faulted["op"] == "store" or (faulted["op"] == "tag" and any(
+                        s["op"] == "store" and s.get("c") == faulted["cid"]["of"] for s in start))):
+                    want = world.contents[faulted["c"] if faulted["op"] == "store" else faulted["cid"]["of"]]
+                    if now[("obj", faulted["pid"])] != ("ok", want):
+                        ctx.violation("success-without-effect", f"{where}: the faulted call returned normally but its pid yields "
+                                      f"{scen._s(now[('obj', faulted['pid'])])}", dict(sig, failure="success-without-effect"))
+                if faulted["op"] == "smeta" and o0[0] == "err":
+                    key = ("meta", faulted["pid"], faulted["fmt"])
+                    if now[key] != served0[key]:
+                        ctx.violation("previous-metadata-lost", f"{where}: store_metadata raised; the document was {scen._s(served0[key])} "
+                                      f"and is now {scen._s(now[key])}", dict(sig, failure="previous-metadata-lost"))
+                if faulted["op"] in ("store", "tag") and o0[0] == "err" and served0[("obj", faulted["pid"])][0] == "ok":
+                    if now[("obj", faulted["pid"])] != served0[("obj", faulted["pid"])]:
+                        ctx.violation("earlier-binding-lost", f"{where}: the pid's earlier binding now yields "
+                                      f"{scen._s(now[('obj', faulted['pid'])])}", dict(sig, failure="earlier-binding-lost"))
+                ctx.classify("next-to:" + case["pair"])
+                ctx.classify("next-to outcome of the faulted call=" + o0[0])
+                if pre:
+                    ctx.nontrivial(["next-to", case["pair"], k, inj.fired.kind, order, pre, ex.outcomes])
+            finally:
+                if ex.dir:
+                    _sh.rmtree(ex.dir, ignore_errors=True)
+        if not fired_any:
+            break
+        k += 1
+    ctx.sample({"family": "faulted call next to a concurrent call", "pair": case["pair"], "first": case["firsts"], "fault_sites": k,
+                "executions": total})
+
+
 def _core(a):
     return {"o": a["objects"], "p": a["pidrefs"], "c": {k: sorted(v) for k, v in a["cidrefs"].items()},
             "m": a["metadata"]}
 
 
 def run_case(case, ctx):
+    if case.get("family") == "next-to":
+        return _next_to_case(case, ctx)
     fsi.install()
     sc = scen.Scenario(case, ctx)
     cfg = sc.cfg
